@@ -274,3 +274,19 @@ def pending(fx):
     core = set(r for r in rows if r in want)
     yield ob("R-C17-4", "pending#merge_when_last", core == want and all(r[3] for r in rows), wb, None,
              "(counter == 0, slab entries removed, replies sent, decrement by one) rows: %s" % sorted(rows), {"rows": sorted(map(str, rows))})
+
+
+@PROP.rule("R-C17-5", floor=1, doc="no RefCell guard is alive at a suspension point of any async body of the WebTorrent tracker (a second borrower would panic and take the worker down)")
+def refcell_across_await(fx):
+    from aq import refcell
+    from aq.util import in_test_code as _t
+    n = 0
+    bad = []
+    for b in fx.bodies.values():
+        if b.crate not in ("aquatic_ws",) or _t(b) or not any(blk["term"]["k"] == "yield" for blk in b.blocks):
+            continue
+        n += 1
+        for line, held in refcell.held_across_await(b):
+            bad.append("%s:%s holds %s (borrowed at line %s) across an await" % (b.short.split("::workers::")[-1], line, held[0][0], held[0][1]))
+    yield ob("R-C17-5", "await#ws#no_refcell_guard_held", n >= 10 and not bad, None, None,
+             "%d async bodies analysed (may-hold dataflow of std::cell::Ref / RefMut locals to every yield): %s" % (n, bad[:4] or "none held across an await"), {"async_bodies": n, "held": bad[:10]})
